@@ -45,7 +45,7 @@ class C13(WigBedProp):
             "chromosome, chromosomes out of order, malformed line, empty input; bigBed: out-of-order starts, start > end, start "
             "beyond the chromosome, …) injected at EVERY item position of the first / middle / last chromosome of a valid "
             "three-chromosome input × {bigWig, bigBed} × {iterator, file, parallel file source} × {single pass, two pass}; plus "
-            "valid degenerate inputs (only zero-length items, one item, a chromosome listed but absent, odd manual zoom lists). "
+            "the same classes at EVERY chromosome position of 8-chromosome inputs (more chromosomes than the parallel source queues at once); valid degenerate inputs (only zero-length items, one item, a chromosome listed but absent, odd manual zoom lists). "
             "Every call runs under catch_unwind and a 15 s watchdog. Non-trivial = an injected violation (all but the valid ones)")
     removable = ()
 
@@ -70,6 +70,21 @@ class C13(WigBedProp):
                                     if c:
                                         out.append(c)
                                     k += 1
+        # many chromosomes (more than the parallel source queues at once): a violation in / at EVERY chromosome position
+        for bed in (False, True):
+            for cls in ("chrom_order", "unknown_chrom", "overlap_or_order", "malformed"):
+                for nch in ((7, 9) if tier == "thorough" else (8,)):
+                    for pos in range(nch):
+                        for src in ("iter", "file", "par"):
+                            for ps in (1, 2):
+                                if cls == "malformed" and src == "iter":
+                                    continue
+                                if tier != "thorough" and (pos + ps + (src == "file")) % 2 and src != "par":
+                                    continue
+                                c = self.make_many(rng.fork(f"many{k}"), k, bed, cls, nch, pos, src, ps)
+                                if c:
+                                    out.append(c)
+                                k += 1
         # valid degenerate inputs: must be accepted and must return
         for bed in (False, True):
             for variant in ("zero_only", "one_item", "absent_chrom", "zero_mid", "zero_start_only_chrom2"):
@@ -153,6 +168,54 @@ class C13(WigBedProp):
         if raw_text is not None:
             lines.append("TEXT " + hexs(raw_text))
         return CaseT(f"i{k}", "bed" if bed else "wig", [], lines, tags)
+
+    def make_many(self, r, k, bed, cls, nch, pos, src, ps):
+        names = [f"c{i:02d}" for i in range(nch)]
+        sizes = {n: 300 + 10 * i for i, n in enumerate(names)}
+        data = {}
+        for n in names:
+            a = r.range(0, 20)
+            items = []
+            for _ in range(r.range(1, 3)):
+                ln = r.range(1, 20)
+                items.append((a, a + ln, "x" if bed else f32bits(float(r.range(1, 5)))))
+                a += ln + r.range(0, 9)
+            data[n] = items
+        o = {"compress": r.choice([0, 1]), "ips": r.choice([1, 2, 1024]), "bs": r.choice([2, 256]),
+             "zooms": r.choice(["auto", "none", "10"]), "pass": ps, "inmem": r.choice([0, 1]), "rt": "mt",
+             "threads": r.choice([1, 2, 4]), "chan": r.choice([0, 1, 100]), "src": src, "sort": "all"}
+        tags = {cls if cls != "overlap_or_order" else "out_of_order", f"src_{src}", f"pass_{ps}", "bed" if bed else "wig", f"chrom_{pos}_of_{nch}", "injected", "many_chroms"}
+        order = list(names)
+        raw_text = None
+        if cls == "chrom_order":
+            if pos == 0:
+                return None
+            order[pos - 1], order[pos] = order[pos], order[pos - 1]        # chromosome `pos` comes one place too early
+            tags.add("chrom_order")
+            if src == "par":
+                tags.add("par_order_check")
+        elif cls == "unknown_chrom":
+            del sizes[names[pos]]
+        elif cls == "overlap_or_order":
+            s0, e0, x0 = data[names[pos]][-1]
+            if bed:
+                data[names[pos]].append((max(0, s0 - 1), s0 + 2, x0))   # starts before its predecessor
+                if s0 == 0:
+                    return None
+            else:
+                data[names[pos]].append((e0 - 1, e0 + 3, x0))           # overlaps its predecessor
+        elif cls == "malformed":
+            flat = sum(len(data[n]) for n in names[:pos])
+            nm = names[pos]
+            bad = r.choice([f"{nm}\tabc\t10\t1", f"{nm}\t5", f"{nm}\t5\t-7\t1", f"{nm}"])
+            raw_text = text_of(names, data, bed, (flat, bad))
+        lines = [bbgen.opt_line(o)] + [f"CHROM {n} {l}" for n, l in sizes.items()]
+        for n in order:
+            for (a, b, x2) in data[n]:
+                lines.append(f"E {n} {a} {b} {hexs(x2)}" if bed else f"V {n} {a} {b} {x2}")
+        if raw_text is not None:
+            lines.append("TEXT " + hexs(raw_text))
+        return CaseT(f"m{k}", "bed" if bed else "wig", [], lines, tags)
 
     def degenerate(self, k, bed, variant, src, ps, zooms):
         sizes = {"chr1": 1000, "chr2": 500}
